@@ -1,1 +1,617 @@
-pub fn child_main() -> ! { std::process::exit(0) }
+//! Keeping the formatter-process model honest (DESIGN §4.4): the same scenarios on the real kernel.
+//!
+//! The parent is the real library code; the child is a real process (a copy of this binary named
+//! `rustfmt`, first on PATH) executing the same `Op` script with real reads, writes, exits and
+//! signals over real pipes. The three orderings are forced, not hoped for. The outcome class from
+//! the kernel must equal the model's for the same scenario; a disagreement is a defect of the
+//! model (exit 2), never a verdict about the library.
+
+use crate::c19::{self, Case};
+use crate::corpus::{self, Job, Opts, ShaderRef};
+use crate::procsim::{Op, ProcPlan, SpawnPlan};
+use crate::Tier;
+use serde::{Deserialize, Serialize};
+use std::collections::BTreeMap;
+use std::io::{Read, Write};
+use std::os::unix::process::ExitStatusExt;
+use std::process::ExitStatus;
+use std::sync::{Arc, Mutex};
+use wgsl_to_wgpu::verif_hooks::{
+    self,
+    process::{ChildIo, Fd, SpawnSpec, StdioKind},
+    Backend,
+};
+
+#[derive(Debug, Clone, Copy, Serialize, Deserialize, PartialEq, Eq)]
+#[serde(rename_all = "snake_case")]
+pub enum Order {
+    /// The child has done everything it can (usually: is a zombie) before spawn returns.
+    ChildFirst,
+    /// The child does nothing until the parent has written min(len, pipe capacity) bytes.
+    ParentFirst,
+    /// No forcing at all (recorded only, never compared).
+    Free,
+}
+
+#[derive(Debug, Clone, Serialize, Deserialize)]
+pub struct Scenario {
+    pub name: String,
+    pub job: Job,
+    pub spawn: SpawnPlan,
+    pub script: Vec<Op>,
+    pub order: Order,
+}
+
+#[derive(Debug, Clone, Serialize, Deserialize)]
+struct ChildConfig {
+    script: Vec<Op>,
+    order: Order,
+    expected_len: usize,
+    reference_path: String,
+}
+
+// ---------------------------------------------------------------------------------------------
+// The scripted child (`rustfmt` on PATH)
+
+fn fionread(fd: i32) -> usize {
+    let mut n: libc::c_int = 0;
+    unsafe {
+        libc::ioctl(fd, libc::FIONREAD, &mut n);
+    }
+    n.max(0) as usize
+}
+
+pub fn child_main() -> ! {
+    unsafe {
+        // no core files for the signal scenarios
+        let lim = libc::rlimit {
+            rlim_cur: 0,
+            rlim_max: 0,
+        };
+        libc::setrlimit(libc::RLIMIT_CORE, &lim);
+    }
+    let cfg: ChildConfig = match std::env::var("WGSL_SIM_CHILD_SCRIPT")
+        .ok()
+        .and_then(|s| serde_json::from_str(&s).ok())
+    {
+        Some(c) => c,
+        None => std::process::exit(97),
+    };
+    if cfg.order == Order::ParentFirst {
+        let want = cfg.expected_len.min(65536);
+        let start = std::time::Instant::now();
+        while fionread(0) < want && start.elapsed() < std::time::Duration::from_secs(3) {
+            std::thread::sleep(std::time::Duration::from_millis(1));
+        }
+    }
+    let reference = std::fs::read_to_string(&cfg.reference_path).unwrap_or_default();
+    let mut received: Vec<u8> = Vec::new();
+    let mut outbuf: Vec<u8> = Vec::new();
+    let mut fmt_failed = false;
+    let mut stdin_open = true;
+    let mut stdout_open = true;
+    let read_some = |n: Option<usize>, received: &mut Vec<u8>, stdin_open: bool| {
+        if !stdin_open {
+            return;
+        }
+        let mut got = 0usize;
+        let mut buf = [0u8; 65536];
+        loop {
+            let want = match n {
+                Some(n) if got >= n => break,
+                Some(n) => (n - got).min(buf.len()),
+                None => buf.len(),
+            };
+            let r = unsafe { libc::read(0, buf.as_mut_ptr() as *mut libc::c_void, want) };
+            if r <= 0 {
+                break;
+            }
+            received.extend_from_slice(&buf[..r as usize]);
+            got += r as usize;
+        }
+    };
+    for op in cfg.script.iter().cloned().chain(std::iter::once(Op::Exit(0))) {
+        match op {
+            Op::Delay(t) => {
+                let ms = if t >= 1_000_000 {
+                    60
+                } else if t >= 1000 {
+                    15
+                } else {
+                    1
+                };
+                std::thread::sleep(std::time::Duration::from_millis(ms));
+            }
+            Op::Read(n) => read_some(Some(n), &mut received, stdin_open),
+            Op::ReadToEof => read_some(None, &mut received, stdin_open),
+            Op::Format => match std::str::from_utf8(&received)
+                .ok()
+                .and_then(crate::procsim::format_source)
+            {
+                Some(text) => outbuf.extend(text.bytes()),
+                None => fmt_failed = true,
+            },
+            Op::EmitRef(permille) => {
+                let mut n = reference.len() * (permille.min(1000) as usize) / 1000;
+                while n > 0 && !reference.is_char_boundary(n) {
+                    n -= 1;
+                }
+                outbuf.extend_from_slice(&reference.as_bytes()[..n]);
+            }
+            Op::EmitGarbage(n) => outbuf.extend(b"%% not rust @@ ".iter().cycle().take(n)),
+            Op::EmitNonUtf8(n) => outbuf.extend(std::iter::repeat(0xffu8).take(n)),
+            Op::Flush => {
+                if stdout_open && !outbuf.is_empty() {
+                    let mut off = 0;
+                    while off < outbuf.len() {
+                        let r = unsafe {
+                            libc::write(
+                                1,
+                                outbuf[off..].as_ptr() as *const libc::c_void,
+                                outbuf.len() - off,
+                            )
+                        };
+                        if r <= 0 {
+                            // EPIPE (SIGPIPE is ignored by the Rust runtime): die like a C program would
+                            unsafe {
+                                libc::signal(libc::SIGPIPE, libc::SIG_DFL);
+                                libc::kill(libc::getpid(), libc::SIGPIPE);
+                            }
+                            std::process::exit(141);
+                        }
+                        off += r as usize;
+                    }
+                }
+                outbuf.clear();
+            }
+            Op::CloseStdin => {
+                unsafe { libc::close(0) };
+                stdin_open = false;
+            }
+            Op::CloseStdout => {
+                unsafe { libc::close(1) };
+                stdout_open = false;
+            }
+            Op::Exit(c) => unsafe { libc::_exit(c & 0xff) },
+            Op::ExitAuto => unsafe { libc::_exit(if fmt_failed { 1 } else { 0 }) },
+            Op::Kill(sig) => unsafe {
+                libc::signal(sig, libc::SIG_DFL);
+                libc::kill(libc::getpid(), sig);
+                std::thread::sleep(std::time::Duration::from_secs(5));
+                libc::_exit(98);
+            },
+        }
+    }
+    unsafe { libc::_exit(0) }
+}
+
+// ---------------------------------------------------------------------------------------------
+// Parent side: a backend that spawns the real process and forces the ordering
+
+struct RealChild {
+    child: Mutex<std::process::Child>,
+    stdin: Mutex<Option<std::process::ChildStdin>>,
+    stdout: Mutex<Option<std::process::ChildStdout>>,
+    pid: u32,
+}
+
+impl ChildIo for RealChild {
+    fn write(&self, _fd: Fd, buf: &[u8]) -> std::io::Result<usize> {
+        match self.stdin.lock().unwrap().as_mut() {
+            Some(s) => s.write(buf),
+            None => Err(std::io::Error::from_raw_os_error(libc::EBADF)),
+        }
+    }
+    fn flush(&self, _fd: Fd) -> std::io::Result<()> {
+        Ok(())
+    }
+    fn read(&self, fd: Fd, buf: &mut [u8]) -> std::io::Result<usize> {
+        match fd {
+            Fd::Stdout => match self.stdout.lock().unwrap().as_mut() {
+                Some(s) => s.read(buf),
+                None => Ok(0),
+            },
+            _ => Ok(0),
+        }
+    }
+    fn close(&self, fd: Fd) {
+        match fd {
+            Fd::Stdin => drop(self.stdin.lock().unwrap().take()),
+            Fd::Stdout => drop(self.stdout.lock().unwrap().take()),
+            Fd::Stderr => {}
+        }
+    }
+    fn wait(&self) -> std::io::Result<ExitStatus> {
+        self.child.lock().unwrap().wait()
+    }
+    fn try_wait(&self) -> std::io::Result<Option<ExitStatus>> {
+        self.child.lock().unwrap().try_wait()
+    }
+    fn kill(&self) -> std::io::Result<()> {
+        self.child.lock().unwrap().kill()
+    }
+    fn id(&self) -> u32 {
+        self.pid
+    }
+    fn handle_dropped(&self) {
+        // reap in any case so no zombie outlives the scenario
+        let mut c = self.child.lock().unwrap();
+        let _ = c.kill();
+        let _ = c.wait();
+    }
+}
+
+fn proc_state(pid: u32) -> Option<char> {
+    let stat = std::fs::read_to_string(format!("/proc/{pid}/stat")).ok()?;
+    let rest = &stat[stat.rfind(')')? + 1..];
+    rest.trim_start().chars().next()
+}
+
+struct KernelBackend {
+    order: Order,
+}
+
+impl Backend for KernelBackend {
+    fn point(&self, _site: &'static str) {}
+
+    fn spawn(&self, spec: &SpawnSpec) -> Option<std::io::Result<Arc<dyn ChildIo>>> {
+        let to_std = |k: StdioKind| match k {
+            StdioKind::Inherit => std::process::Stdio::inherit(),
+            StdioKind::Null => std::process::Stdio::null(),
+            StdioKind::Piped => std::process::Stdio::piped(),
+        };
+        let mut cmd = std::process::Command::new(&spec.program);
+        cmd.args(&spec.args)
+            .stdin(to_std(spec.stdin))
+            .stdout(to_std(spec.stdout))
+            .stderr(to_std(spec.stderr));
+        let mut child = match cmd.spawn() {
+            Ok(c) => c,
+            Err(e) => return Some(Err(e)),
+        };
+        let pid = child.id();
+        if self.order == Order::ChildFirst {
+            // Wait until the child is a zombie (all its pipe ends are closed then) or has been
+            // asleep (blocked on a read) for a while.
+            let start = std::time::Instant::now();
+            let mut asleep_since: Option<std::time::Instant> = None;
+            loop {
+                match proc_state(pid) {
+                    Some('Z') | None => break,
+                    Some('S') => {
+                        let since = *asleep_since.get_or_insert_with(std::time::Instant::now);
+                        if since.elapsed() > std::time::Duration::from_millis(120) {
+                            break;
+                        }
+                    }
+                    _ => asleep_since = None,
+                }
+                if start.elapsed() > std::time::Duration::from_secs(5) {
+                    break;
+                }
+                std::thread::sleep(std::time::Duration::from_millis(1));
+            }
+        }
+        let stdin = child.stdin.take();
+        let stdout = child.stdout.take();
+        Some(Ok(Arc::new(RealChild {
+            child: Mutex::new(child),
+            stdin: Mutex::new(stdin),
+            stdout: Mutex::new(stdout),
+            pid,
+        })))
+    }
+}
+
+/// `wgsl-sim kernel-case`: one scenario in this (fresh) process; prints the outcome class.
+pub fn case_main() -> i32 {
+    let mut text = String::new();
+    if std::io::stdin().read_to_string(&mut text).is_err() {
+        return 2;
+    }
+    let sc: Scenario = match serde_json::from_str(&text) {
+        Ok(s) => s,
+        Err(e) => {
+            eprintln!("HARNESS-ERROR kernel-case input: {e}");
+            return 2;
+        }
+    };
+    let cache = c19::new_ref_cache();
+    let Some(reference) = c19::reference_for(&cache, &sc.job) else {
+        println!("{}", serde_json::json!({"class": "skipped:no_reference_program"}));
+        return 0;
+    };
+    let dir = std::env::var("WGSL_SIM_KERNEL_DIR").unwrap_or_else(|_| "/tmp".into());
+    let reference_path = format!("{dir}/reference-{}.rs", std::process::id());
+    let _ = std::fs::write(&reference_path, reference.text.as_bytes());
+    let source = sc.job.shader.source();
+    let mut options = sc.job.options;
+    options.rustfmt = true;
+    // what the parent will send: the raw token string is not available here, but its length is
+    // within a few percent of the pretty-printed reference; the child only needs a lower bound
+    let expected_len = reference.text.len() / 2;
+    let cfg = ChildConfig {
+        script: sc.script.clone(),
+        order: sc.order,
+        expected_len,
+        reference_path: reference_path.clone(),
+    };
+    std::env::set_var("WGSL_SIM_CHILD_SCRIPT", serde_json::to_string(&cfg).unwrap());
+    match sc.spawn {
+        SpawnPlan::Ok => {}
+        // "formatter missing": a PATH without any rustfmt / with a non-executable one
+        SpawnPlan::NotFound => std::env::set_var("PATH", format!("{dir}/empty")),
+        _ => std::env::set_var("PATH", format!("{dir}/noexec")),
+    }
+    verif_hooks::install(Some(Arc::new(KernelBackend { order: sc.order }) as Arc<dyn Backend>));
+    // A real hang must not take the harness with it.
+    unsafe {
+        libc::alarm(20);
+    }
+    let result = std::panic::catch_unwind(std::panic::AssertUnwindSafe(|| {
+        corpus::run_job(&source, sc.job.include_path.as_deref(), options)
+    }));
+    verif_hooks::install(None);
+    let _ = std::fs::remove_file(&reference_path);
+    let (class, _failure) = c19::judge(result, &reference, None);
+    println!("{}", serde_json::json!({"class": class}));
+    0
+}
+
+// ---------------------------------------------------------------------------------------------
+// Driver
+
+pub fn scenarios(tier: Tier) -> Vec<Scenario> {
+    let small = ShaderRef::Repo {
+        path: "wgsl_to_wgpu/src/data/fragment_simple.wgsl".into(),
+    };
+    let large = ShaderRef::Gen { seed: 7, scale: 10 };
+    let scripts: Vec<(&str, SpawnPlan, Vec<Op>)> = vec![
+        ("absent_notfound", SpawnPlan::NotFound, vec![]),
+        ("absent_noexec", SpawnPlan::PermissionDenied, vec![]),
+        ("normal", SpawnPlan::Ok, vec![Op::ReadToEof, Op::Format, Op::Flush, Op::ExitAuto]),
+        ("slow_normal", SpawnPlan::Ok, vec![Op::Delay(1_000_000), Op::ReadToEof, Op::Delay(1000), Op::Format, Op::Flush, Op::Delay(1000), Op::ExitAuto]),
+        ("exit1_after_reading", SpawnPlan::Ok, vec![Op::ReadToEof, Op::Exit(1)]),
+        ("exit1_after_formatting", SpawnPlan::Ok, vec![Op::ReadToEof, Op::Format, Op::Flush, Op::Exit(1)]),
+        ("exit101_after_prefix", SpawnPlan::Ok, vec![Op::ReadToEof, Op::EmitRef(500), Op::Flush, Op::Exit(101)]),
+        ("exit1_without_reading", SpawnPlan::Ok, vec![Op::Exit(1)]),
+        ("exit127_without_reading", SpawnPlan::Ok, vec![Op::Exit(127)]),
+        ("close_stdin_then_exit2", SpawnPlan::Ok, vec![Op::CloseStdin, Op::Delay(1000), Op::Exit(2)]),
+        ("read100_exit1", SpawnPlan::Ok, vec![Op::Read(100), Op::Exit(1)]),
+        ("read5000_sigkill", SpawnPlan::Ok, vec![Op::Read(5000), Op::Kill(libc::SIGKILL)]),
+        ("sigkill_at_once", SpawnPlan::Ok, vec![Op::Kill(libc::SIGKILL)]),
+        ("sigsegv_at_once", SpawnPlan::Ok, vec![Op::Kill(libc::SIGSEGV)]),
+        ("sigterm_after_reading", SpawnPlan::Ok, vec![Op::ReadToEof, Op::Kill(libc::SIGTERM)]),
+        ("sigkill_mid_output", SpawnPlan::Ok, vec![Op::ReadToEof, Op::EmitRef(300), Op::Flush, Op::Kill(libc::SIGKILL)]),
+        ("empty_after_reading", SpawnPlan::Ok, vec![Op::ReadToEof, Op::Exit(0)]),
+        ("empty_without_reading", SpawnPlan::Ok, vec![Op::Exit(0)]),
+        ("empty_read10", SpawnPlan::Ok, vec![Op::Read(10), Op::Exit(0)]),
+        ("empty_closed_stdout", SpawnPlan::Ok, vec![Op::CloseStdout, Op::ReadToEof, Op::Exit(0)]),
+        // outside the oracle, but the model must still agree with the kernel on them
+        ("info_garbage_exit0", SpawnPlan::Ok, vec![Op::ReadToEof, Op::EmitGarbage(3000), Op::Flush, Op::Exit(0)]),
+        ("info_nonutf8_exit0", SpawnPlan::Ok, vec![Op::ReadToEof, Op::EmitNonUtf8(100), Op::Flush, Op::Exit(0)]),
+        ("info_prefix_exit0", SpawnPlan::Ok, vec![Op::ReadToEof, Op::EmitRef(400), Op::Flush, Op::Exit(0)]),
+    ];
+    let mut out = Vec::new();
+    let shaders: Vec<(&str, ShaderRef)> = if tier == Tier::Quick {
+        vec![("small", small), ("large", large)]
+    } else {
+        vec![
+            ("small", small),
+            ("large", large),
+            ("xlarge", ShaderRef::Gen { seed: 11, scale: 24 }),
+            ("types", ShaderRef::Repo { path: "wgsl_to_wgpu/src/data/struct/types.wgsl".into() }),
+        ]
+    };
+    for (sname, shader) in &shaders {
+        for (name, spawn, script) in &scripts {
+            for order in [Order::ChildFirst, Order::ParentFirst] {
+                let mut options = Opts::plain();
+                options.bytemuck_host = true;
+                out.push(Scenario {
+                    name: format!("{name}/{sname}/{order:?}"),
+                    job: Job {
+                        shader: shader.clone(),
+                        include_path: None,
+                        options,
+                    },
+                    spawn: *spawn,
+                    script: script.clone(),
+                    order,
+                });
+            }
+        }
+    }
+    out
+}
+
+fn model_class(sc: &Scenario) -> String {
+    let case = Case {
+        job: sc.job.clone(),
+        proc: model_plan(sc),
+    };
+    let cache = c19::new_ref_cache();
+    let reference = c19::reference_for(&cache, &case.job);
+    c19::run_case(&case, reference.as_ref(), false).outcome_class
+}
+
+fn model_plan(sc: &Scenario) -> ProcPlan {
+    let mut script = Vec::new();
+    let (op_cost, parent_costs) = match sc.order {
+        Order::ChildFirst => (0, vec![1_000_000]),
+        _ => {
+            script.push(Op::Delay(1_000_000_000_000));
+            (1, vec![1])
+        }
+    };
+    script.extend(sc.script.iter().cloned());
+    ProcPlan {
+        spawn: sc.spawn,
+        script,
+        stdin_cap: 65536,
+        stdout_cap: 65536,
+        chunk: 65536,
+        op_cost,
+        parent_costs,
+        short_writes: false,
+        exit_lag: 0,
+    }
+}
+
+pub struct Disagreement {
+    pub scenario: Scenario,
+    pub model: String,
+    pub kernel: String,
+    /// the oracle of DESIGN §4.2 applies to this scenario's script
+    pub eligible: bool,
+}
+
+pub struct KernelReport {
+    pub scenarios: u64,
+    pub agree: u64,
+    pub disagreements: Vec<Disagreement>,
+    pub classes: BTreeMap<String, u64>,
+}
+
+/// Scratch directory with the scripted `rustfmt` stub; removed on drop.
+pub struct KernelEnv {
+    dir: std::path::PathBuf,
+    exe: std::path::PathBuf,
+}
+
+impl KernelEnv {
+    pub fn new() -> Result<KernelEnv, String> {
+        static N: std::sync::atomic::AtomicUsize = std::sync::atomic::AtomicUsize::new(0);
+        let dir = std::env::temp_dir().join(format!(
+            "wgsl-sim-kernel-{}-{}",
+            std::process::id(),
+            N.fetch_add(1, std::sync::atomic::Ordering::Relaxed)
+        ));
+        let _ = std::fs::remove_dir_all(&dir);
+        for d in ["bin", "empty", "noexec"] {
+            std::fs::create_dir_all(dir.join(d)).map_err(|e| e.to_string())?;
+        }
+        let exe = std::env::current_exe().map_err(|e| e.to_string())?;
+        std::fs::copy(&exe, dir.join("bin/rustfmt")).map_err(|e| format!("copy stub: {e}"))?;
+        std::fs::write(dir.join("noexec/rustfmt"), "not executable").map_err(|e| e.to_string())?;
+        {
+            use std::os::unix::fs::PermissionsExt;
+            let _ = std::fs::set_permissions(
+                dir.join("noexec/rustfmt"),
+                std::fs::Permissions::from_mode(0o644),
+            );
+        }
+        Ok(KernelEnv { dir, exe })
+    }
+
+    /// Run one scenario in a fresh process against the real kernel; returns its outcome class.
+    pub fn run(&self, sc: &Scenario) -> Result<String, String> {
+        let mut child = std::process::Command::new(&self.exe)
+            .arg("kernel-case")
+            .env("PATH", format!("{}/bin:/usr/bin:/bin", self.dir.display()))
+            .env("WGSL_SIM_KERNEL_DIR", &self.dir)
+            .env("VERIF_REPO", corpus::repo_root())
+            .stdin(std::process::Stdio::piped())
+            .stdout(std::process::Stdio::piped())
+            .stderr(std::process::Stdio::null())
+            .spawn()
+            .map_err(|e| e.to_string())?;
+        child
+            .stdin
+            .take()
+            .unwrap()
+            .write_all(serde_json::to_string(sc).unwrap().as_bytes())
+            .map_err(|e| e.to_string())?;
+        let out = child.wait_with_output().map_err(|e| e.to_string())?;
+        if out.status.signal() == Some(libc::SIGALRM) {
+            return Ok("hang:real_process_timeout".into());
+        }
+        let v: serde_json::Value = serde_json::from_slice(&out.stdout)
+            .map_err(|e| format!("kernel-case output ({:?}): {e}", out.status))?;
+        Ok(v["class"].as_str().unwrap_or("?").to_string())
+    }
+}
+
+impl Drop for KernelEnv {
+    fn drop(&mut self) {
+        let _ = std::fs::remove_dir_all(&self.dir);
+    }
+}
+
+pub fn cross_check(tier: Tier) -> Result<KernelReport, String> {
+    let env = KernelEnv::new()?;
+    let list = scenarios(tier);
+    let results: Mutex<Vec<(usize, String, String)>> = Mutex::new(Vec::new());
+    let next = std::sync::atomic::AtomicUsize::new(0);
+    let error = Mutex::new(None::<String>);
+    std::thread::scope(|scope| {
+        for _ in 0..crate::workers().min(8) {
+            scope.spawn(|| loop {
+                let i = next.fetch_add(1, std::sync::atomic::Ordering::Relaxed);
+                if i >= list.len() {
+                    break;
+                }
+                let sc = &list[i];
+                let model = model_class(sc);
+                match env.run(sc) {
+                    Ok(real) => results.lock().unwrap().push((i, model, real)),
+                    Err(e) => *error.lock().unwrap() = Some(format!("{}: {e}", sc.name)),
+                }
+            });
+        }
+    });
+    if let Some(e) = error.into_inner().unwrap() {
+        return Err(e);
+    }
+    let mut report = KernelReport {
+        scenarios: 0,
+        agree: 0,
+        disagreements: Vec::new(),
+        classes: BTreeMap::new(),
+    };
+    let mut results = results.into_inner().unwrap();
+    results.sort();
+    for (i, model, real) in results {
+        report.scenarios += 1;
+        *report.classes.entry(real.clone()).or_default() += 1;
+        // "hang" verdicts are named differently on the two sides
+        let same = model == real || (model.starts_with("hang:") && real.starts_with("hang:"));
+        if same {
+            report.agree += 1;
+        } else {
+            let sc = list[i].clone();
+            let (eligible, _) = c19::classify(&model_plan(&sc));
+            report.disagreements.push(Disagreement {
+                scenario: sc,
+                model,
+                kernel: real,
+                eligible,
+            });
+        }
+    }
+    Ok(report)
+}
+
+pub fn main(tier: Tier) -> i32 {
+    match cross_check(tier) {
+        Ok(r) => {
+            println!(
+                "kernel cross-check: {} scenarios, {} agree, classes {:?}",
+                r.scenarios, r.agree, r.classes
+            );
+            for d in &r.disagreements {
+                println!("MODEL-DISAGREES {}: model={} kernel={}", d.scenario.name, d.model, d.kernel);
+            }
+            if r.disagreements.is_empty() {
+                0
+            } else {
+                eprintln!("HARNESS-ERROR the formatter-process model disagrees with the kernel");
+                2
+            }
+        }
+        Err(e) => {
+            eprintln!("HARNESS-ERROR {e}");
+            2
+        }
+    }
+}
